@@ -209,9 +209,12 @@ type Env struct {
 	KS     *testingutils.TestKeySet
 	Share  *spectypes.Share
 	Runner runner.Runner
-	Beacon *RecBeacon
-	Net    *testingutils.TestingNetwork
-	Logger *zap.Logger
+	// AltDecided: the value the committee decides differs from this operator's own input (set
+	// before Prefix; attester duties)
+	AltDecided bool
+	Beacon     *RecBeacon
+	Net        *testingutils.TestingNetwork
+	Logger     *zap.Logger
 
 	Duty *spectypes.Duty
 	// Decided is the consensus value the prefix had decided (nil for the consensus-less roles).
@@ -528,6 +531,25 @@ func (e *Env) Prefix() error {
 		return fmt.Errorf("no running instance after start/pre-consensus")
 	}
 	value := st.RunningInstance.StartValue // what an honest leader holding the same beacon data proposes
+	if e.AltDecided {
+		// the leader's beacon node saw another head: the committee decides a valid value that differs
+		// from what this operator's own node returned at duty start (attester duties)
+		cd := &spectypes.ConsensusData{}
+		if err := cd.Decode(value); err != nil {
+			return fmt.Errorf("start value: %w", err)
+		}
+		ad, err := cd.GetAttestationData()
+		if err != nil {
+			return fmt.Errorf("AltDecided needs an attester duty: %w", err)
+		}
+		ad.BeaconBlockRoot[0] ^= 0xff
+		if cd.DataSSZ, err = ad.MarshalSSZ(); err != nil {
+			return err
+		}
+		if value, err = cd.Encode(); err != nil {
+			return err
+		}
+	}
 	root := sha256.Sum256(value)
 	height := specqbft.Height(slot)
 	leader := specqbft.RoundRobinProposer(st.RunningInstance.State, specqbft.FirstRound)
